@@ -224,7 +224,15 @@ def mk_GEXTHROTTLE(label):
     return s
 
 
-HEALTHY_EXTRA = {'PQONLY': mk_PQONLY, 'GEXTHROTTLE': mk_GEXTHROTTLE}
+def mk_PROBESSILENT(label):
+    # a complete first handshake; every later (probe) connection is accepted and then says nothing: each costs the tool one timeout
+    s = peer.Server(label=label, kex=['curve25519-sha256', 'diffie-hellman-group-exchange-sha256'], key=['rsa-sha2-512', 'ssh-ed25519'], enc=['aes256-ctr', '3des-cbc'], mac=['hmac-sha2-256'],
+                    gex=peer.GexPolicy([2048, 4096], peer.STRICT), host_keys=_hk(['rsa-sha2-512', 'ssh-ed25519']), banner=b'SSH-2.0-OpenSSH_8.0')
+    s.conn_behaviour = lambda i: 'normal' if i == 0 else 'silent'
+    return s
+
+
+HEALTHY_EXTRA = {'PQONLY': mk_PQONLY, 'GEXTHROTTLE': mk_GEXTHROTTLE, 'PROBESSILENT': mk_PROBESSILENT}
 
 FAILING = {
     'UNRESOLVABLE': None, 'REFUSED': mk_REFUSED, 'CONNTIMEOUT': mk_CONNTIMEOUT, 'SILENT': mk_SILENT, 'CLOSEEARLY': mk_CLOSEEARLY,
